@@ -150,6 +150,12 @@ let elem_at elems i =
      | _ -> None)
   | None -> None
 
+(** val as_array : node -> node list option **)
+
+let as_array = function
+| Arr l -> Some l
+| _ -> None
+
 (** val or_void0 : node option -> node option **)
 
 let or_void0 a = match a with
@@ -328,17 +334,17 @@ let array_form dflt argument splitted elems =
   in
   (match elem_at elems (S O) with
    | Some e ->
-     (match e with
-      | Arr elems2 -> ((v, arg_d), (Some (parse_modifiers elems2)))
-      | _ ->
+     (match as_array e with
+      | Some elems2 -> ((v, arg_d), (Some (parse_modifiers elems2)))
+      | None ->
         ((v, (match argument with
               | Some _ -> argument
               | None -> Some e)),
           (match elem_at elems (S (S O)) with
-           | Some n ->
-             (match n with
-              | Arr elems3 -> Some (parse_modifiers elems3)
-              | _ -> None)
+           | Some x ->
+             (match as_array x with
+              | Some elems3 -> Some (parse_modifiers elems3)
+              | None -> None)
            | None -> None)))
    | None -> ((v, arg_d), (Some (set_of_list splitted))))
 
